@@ -134,6 +134,13 @@ def single_world(case):
     cn = Canon(drop={('DiscreteWorld', 'cells'), ('GridWorld', 'cells')})
     for p in itertools.product(*av):
         env.move_to(a, *p[:nargs])
+        if case.get('frac'):
+            # a fractional step in a wrapping grid world: the agent sits between cells, possibly beyond the last cell
+            # ((E - 1) + 0.5 < E is a legal coordinate there); the reference takes the position as read back
+            env.move(a, *[0.5 if d3[i] > 0 else 0 for i in range(nargs)])
+            p = tuple(a[PC].xyz())
+            if any(not (0 <= p[i] < d3[i]) for i in range(3) if d3[i] > 0):
+                raise Violation(f'fractional move in a wrapping world left the agent at {p}')
         if env2.get_agents_at(1, 1, 1 if nargs == 3 else 0, 0) != [b]:
             raise Violation('a query in a second world was disturbed by the world under test')
         snap = public_snapshot(model)
@@ -405,6 +412,7 @@ class PopulationChecked(Population):
 def run(ctx):
     full = ctx.tier == 'thorough'
     cases = [{'leg': 'single', 'world': wn, 'wrap': wrap, 'full': full} for wn in WORLDS for wrap in (False, True)]
+    cases += [{'leg': 'single', 'world': wn, 'wrap': True, 'full': full, 'frac': True} for wn in ('disc4x3x2', 'grid4x3')]
     par.pmap(ctx, single_fn, cases, procs=ctx.procs)
     ctx.leg('single', worlds=len(cases), full_lattice=full)
     extra = [{'leg': 'crowd', 'world': wn, 'n': n} for wn in ('space4x3x0', 'space4x3x2', 'grid4x3', 'disc4x3x2')
